@@ -136,9 +136,10 @@ class _Stepper:
     """Runs one writer in its own (untraced, concrete) thread and lets the scheduler advance it one FS operation at a time.
     Only the schedule bits are symbolic; they are consumed by the scheduler in the traced main thread."""
 
-    def __init__(self, fs, actor, dest, data, again=None):
+    def __init__(self, fs, actor, dest, data, again=None, fail_first=False):
         import threading
         self.fs, self.actor, self.dest, self.data, self.again = fs, actor, dest, data, again
+        self.fail_first = fail_first
         self.go = threading.Semaphore(0)
         self.back = threading.Semaphore(0)
         self.done = False
@@ -158,9 +159,14 @@ class _Stepper:
         self.fs.actor = self.actor
         try:
             writer = srctools.AtomicWriter(self.dest, is_bytes=True)
-            with writer as f:
-                f.write(self.data[:2])
-                f.write(self.data[2:])
+            try:
+                with writer as f:
+                    f.write(self.data[:2])
+                    if self.fail_first:     # the first attempt is abandoned by the caller's own exception, then retried
+                        raise BodyError()
+                    f.write(self.data[2:])
+            except BodyError:
+                pass
             if self.again is not None:      # the class documents that a writer object "can be repeated"
                 with writer as f:
                     f.write(self.again[:2])
@@ -201,10 +207,10 @@ def _gated_fs(fs, steppers):
 
 
 def h_two(s0: bool, s1: bool, s2: bool, s3: bool, s4: bool, s5: bool, s6: bool, s7: bool, s8: bool, s9: bool, s10: bool, s11: bool,
-          s12: bool, s13: bool, stale: int, p0: int = -1, p1: int = -1, p2: int = -1, reuse: bool = False) -> None:
+          s12: bool, s13: bool, stale: int, p0: int = -1, p1: int = -1, p2: int = -1, reuse: bool = False, retry: bool = False) -> None:
     """Two writers replacing different files of one directory, interleaved at FS-operation boundaries by a symbolic schedule.
     With reuse=True the first writer object is used for two consecutive saves (the schedule bits cover the first 14 steps,
-    the rest runs to completion in a fixed order)."""
+    the rest runs to completion in a fixed order); with retry=True its first save is abandoned by a body exception."""
     import srctools
     from vf.stubs import wfs
     sched = [s0, s1, s2, s3, s4, s5, s6, s7, s8, s9, s10, s11, s12, s13]
@@ -226,7 +232,8 @@ def h_two(s0: bool, s1: bool, s2: bool, s3: bool, s4: bool, s5: bool, s6: bool, 
         for i in range(1, stale + 1):
             fs.put(f"/d/tmp_{i}", b"STALE")
         srctools.Path = wfs.make_path_class(fs)
-        ws = [_Stepper(fs, 0, "/d/a", b"AAAA", b"CCCC" if reuse else None), _Stepper(fs, 1, "/d/b", b"BBBB")]
+        reuse = reuse or retry
+        ws = [_Stepper(fs, 0, "/d/a", b"AAAA", b"CCCC" if reuse else None, fail_first=retry), _Stepper(fs, 1, "/d/b", b"BBBB")]
         by_thread = _gated_fs(fs, ws)
         for w in ws:
             by_thread[None] = None
@@ -271,8 +278,8 @@ def h_two(s0: bool, s1: bool, s2: bool, s3: bool, s4: bool, s5: bool, s6: bool, 
 
 
 def h_two_w(s0: bool, s1: bool, s2: bool, s3: bool, s4: bool, s5: bool, s6: bool, s7: bool, s8: bool, s9: bool, s10: bool, s11: bool,
-            s12: bool, s13: bool, stale: int, p0: int = -1, p1: int = -1, p2: int = -1, reuse: bool = False) -> None:
-    h_two(s0, s1, s2, s3, s4, s5, s6, s7, s8, s9, s10, s11, s12, s13, stale, p0, p1, p2, reuse)
+            s12: bool, s13: bool, stale: int, p0: int = -1, p1: int = -1, p2: int = -1, reuse: bool = False, retry: bool = False) -> None:
+    h_two(s0, s1, s2, s3, s4, s5, s6, s7, s8, s9, s10, s11, s12, s13, stale, p0, p1, p2, reuse, retry)
     raise Fail("reached")
 
 
@@ -282,6 +289,7 @@ def obligations(tier):
     single += [{"n_old": 1, "n1": 1, "n2": 1, "stale": 1, "text": True}]
     two = [{"stale": st, "p0": a, "p1": b, "p2": c} for st in ((0,) if tier == "quick" else (0, 1)) for a in (0, 1) for b in (0, 1) for c in (0, 1)]
     two += [{"stale": 0, "p0": a, "p1": b, "p2": c, "reuse": True} for a in (0, 1) for b in (0, 1) for c in (0, 1)]
+    two += [{"stale": 0, "p0": a, "p1": b, "p2": c, "retry": True} for a in (0, 1) for b in (0, 1) for c in (0, 1)]
     return [
         Obl("single", MOD, "h_single", slices=single, budget_s=900, per_path_s=60,
             desc="one writer: crash at any FS operation, one injected fault at any FS operation, body exception at any write; old-or-new, "
@@ -290,6 +298,6 @@ def obligations(tier):
         Obl("single.witness", MOD, "h_single_w", slices=[{"n_old": 1, "n1": 1, "n2": 1, "stale": 1}], budget_s=300, per_path_s=60, witness=True),
         Obl("two_writers", MOD, "h_two", slices=two, budget_s=1500, per_path_s=120,
             desc="two writers in one directory under every interleaving at FS-operation boundaries: no writer touches the other's temp; both files complete",
-            bound="14 symbolic schedule bits (every interleaving of two 6-operation writers)"),
+            bound="14 symbolic schedule bits (every interleaving of two 6-operation writers; reuse / retry-after-body-exception variants: the first 14 steps)"),
         Obl("two_writers.witness", MOD, "h_two_w", slices=[{"stale": 0, "p0": 0, "p1": 1, "p2": 0}], budget_s=600, per_path_s=120, witness=True),
     ]
